@@ -440,6 +440,13 @@ def workload(ctx, repo):
                    gen.tp_from_instant(rng, mode, mid + 5000, rep="week",
                                        offset=(-5, 0), allow_2400=False)]
             pts[-1]["dump_format"] = "CCYYWwwDThhZ"
+            # ... and complete points whose truncated flag is given as 0
+            pts.append(dict(gen.tp_from_instant(
+                rng, mode, mid + 5000 - 2700, rep="ord", offset=(0, 0),
+                allow_2400=False), truncated=0))
+            pts.append(dict(gen.tp_from_instant(
+                rng, mode, mid + 5000 + 900, rep="cal", offset=(-3, -30),
+                allow_2400=False), truncated=0))
             case = {"op": "cluster", "mode": mode, "points": pts}
             ctx.case = case
             ctx.ev("cases.formatting-attributes")
